@@ -174,8 +174,8 @@ def pool_literals(**kw) -> Pool:
     return Pool(
         betas=BETAS[:1], vars=VARS[:1],
         leaves=[('num', '1234567/1000000'), ('num', '12345678'), ('num', '-31/8'), ('num', '1000001/1000000'), ('beta', 1),
-                ('num', '1'), ('num', '1000000001/1000000000')],
-        # equality is exact: 1 and 1 + 1e-9 are different numbers (comparisons of rationals that need no product)
+                ('num', '1'), ('num', '1000000001'), ('num', '1000000000')],
+        # equality is exact: 1000000000 and 1000000001 are different numbers (comparisons of rationals that need no product)
         unops=['UnaryMinus', 'exp', 'log', 'logzero', 'sin', 'cos', 'bioNormalCdf'], binops=['Equal', 'NotEqual'], naryops=[], bound=2000000000, **kw,
     )
 
